@@ -799,12 +799,20 @@ class World(object):
         Shut-down all simulators and close the server socket.
         """
         if not self.loop.is_closed():
+            first_error = None
             for sim in self.sims.values():
-                self.loop.run_until_complete(sim.stop())
+                try:
+                    self.loop.run_until_complete(sim.stop())
+                except Exception as e:
+                    # The other simulators still need to be stopped.
+                    if first_error is None:
+                        first_error = e
 
             self.loop.stop()
             self.loop.run_forever()
             self.loop.close()
+            if first_error is not None:
+                raise first_error
 
 
 if TYPE_CHECKING:
